@@ -93,6 +93,7 @@ func (m *modSet) addAllFields(t types.Type) {
 func (m *modSet) addElem(t types.Type)  { m.descs["E:"+typeKey(t)] = keyDesc{kind: 'E', t: t} }
 func (m *modSet) addBox(t types.Type)   { m.descs["B:"+typeKey(t)] = keyDesc{kind: 'B', t: t} }
 func (m *modSet) addMap(t *types.Map)   { m.descs["M:"+typeKey(t)] = keyDesc{kind: 'M', t: t} }
+func (m *modSet) addMapVisited(t *types.Map) { m.descs["V:"+typeKey(t)] = keyDesc{kind: 'V', t: t} }
 func (m *modSet) addGlobal(g *ssa.Global) { m.descs["G:"+g.String()] = keyDesc{kind: 'G', global: g} }
 
 func itoa(i int) string {
@@ -142,6 +143,8 @@ func (m *modSet) register(c *Ctx) *modSet {
 			m.keys[c.keyMapHas(mt)] = true
 			m.keys[c.keyMapVal(mt)] = true
 			m.keys[c.keyMapLen(mt)] = true
+		case 'V':
+			m.keys[c.keyMapVisited(d.t.Underlying().(*types.Map))] = true
 		case 'G':
 			m.keys[c.keyGlobal(d.global)] = true
 		}
@@ -239,6 +242,16 @@ func (w *World) instrMods(c *Ctx, in ssa.Instruction, ex *Exec) *modSet {
 		storeTargets(m, in.Addr, cellOK)
 	case *ssa.MapUpdate:
 		m.addMap(in.Map.Type().Underlying().(*types.Map))
+	case *ssa.Next:
+		if !in.IsString {
+			if mt, ok := in.Iter.(*ssa.Range).X.Type().Underlying().(*types.Map); ok {
+				m.addMapVisited(mt)
+			}
+		}
+	case *ssa.Range:
+		if mt, ok := in.X.Type().Underlying().(*types.Map); ok {
+			m.addMapVisited(mt)
+		}
 	case *ssa.Alloc:
 		if ex != nil && ex.cells[in] {
 			m.cells[in] = true
